@@ -134,13 +134,21 @@ def make_case(rng):
         doc = (decl(rng, None) if has_decl else '') + body
         data = doc.encode(enc)
         xml = has_decl
+    if rule in ('bom', 'default', 'wide-decl') and rng.random() < 0.12:
+        # not a declaration, but a processing instruction whose target merely begins with "xml": whatever the mode decision is,
+        # it must be the one the str path makes (`xml` = None: compared with the str result only)
+        pi = rng.choice(['<?xml-stylesheet type="text/xsl" href="s.xsl"?>', '<?xml-model href="m.rnc"?>\n', '<?xmlfoo?>'])
+        doc = pi + body
+        data = (BOMS[enc] if rule == 'bom' else b'') + doc.encode(enc)
+        xml = None
+        rule += '-pi'
     nt = any(ord(c) > 127 for c in doc) and (enc != 'utf-8' or rule in ('bom', 'decl', 'meta'))
     return {'data': data, 'doc': doc, 'rule': rule, 'encoding': enc, 'xml': xml, 'vars': vars_, 'objs': objs, 'nontrivial': nt}
 
 
 def mode_expectation(c, out):
     """direct (not metamorphic) expectations on documents of the 'mode' kind"""
-    if '<input checked="${flag}"' not in c['doc']:
+    if '<input checked="${flag}"' not in c['doc'] or c['xml'] is None:
         return None
     flag = dict((k, v) for k, v in c['vars'])['flag']
     if c['xml']:
@@ -323,7 +331,7 @@ def oracle(ctx):
                 if '﻿' in r['out'] and '﻿' not in c['doc']:
                     ctx.violation('%s: a byte-order mark reaches the output' % label, inp, actual=r)
                     break
-                want_ct = 'text/xml' if c['xml'] else 'text/html'
+                want_ct = rs.get('content_type') if c['xml'] is None else ('text/xml' if c['xml'] else 'text/html')
                 if r['content_type'] != want_ct:
                     ctx.violation('%s: content_type does not report the XML/HTML decision' % label, inp, expected=want_ct, actual=r['content_type'])
                     break
